@@ -12,6 +12,7 @@ import (
 	m "github.com/Eyevinn/dash-mpd/mpd"
 	"github.com/Eyevinn/mp4ff/mp4"
 	"net"
+	"regexp"
 	"strings"
 	"time"
 )
@@ -1332,6 +1333,9 @@ func lemmaPublishTime(cfg *ResponseConfig, l1, l2 lastSegInfo, nowS float64) {
 //@   ensures n >= 0
 //@ extern func strings.ReplaceAll(s, old, new) (r)
 //@   ensures len(r) >= 0
+//@   defines strReplaceAllSpec(s, old, new)
+//@ extern func regexp.QuoteMeta(s) (r)
+//@   defines quoteMetaSpec(s)
 
 //@ func (*strConvAccErr).Atoi
 //@   requires s != nil
@@ -1934,6 +1938,13 @@ func urlSafeSpec(b64 string) string { return urlSafeBase64(b64) }
 
 // findSegStartTime: start time (loop-extended) of segment number nr in rep; numbers below the
 // start number have no segment.
+// strReplaceAllSpec / quoteMetaSpec: strings.ReplaceAll and regexp.QuoteMeta (uninterpreted in proofs).
+func strReplaceAllSpec(s, old, new string) string { return strings.ReplaceAll(s, old, new) }
+func quoteMetaSpec(s string) string             { return regexp.QuoteMeta(s) }
+
+//@ uninterpreted strReplaceAllSpec
+//@ uninterpreted quoteMetaSpec
+
 // strContains: strings.Contains (uninterpreted in proofs).
 func strContains(s, sub string) bool { return strings.Contains(s, sub) }
 
@@ -2072,6 +2083,7 @@ func lemmaNumberTemplateAgrees(a *asset, rep *RepData, n, D int) {
 //@ func (*RepData).addRegExpAndInit
 //@   wiring
 //@   callsite QuoteMeta requires templateIsQuoted: arg0 == rp.MediaURI || arg0 == "$Number$" || arg0 == "$Time$"
+//@   callsite MustCompile requires wholePathLiteralTemplate: arg0 == "^" + strReplaceAllSpec(quoteMetaSpec(rp.MediaURI), quoteMetaSpec("$Number$"), "(\\d+)") + "$" || arg0 == "^" + strReplaceAllSpec(quoteMetaSpec(rp.MediaURI), quoteMetaSpec("$Time$"), "(\\d+)") + "$"
 
 // loadRep: cached metadata is consulted only when this server does not (re)write the cache.
 //@ func (*assetMgr).loadRep
